@@ -7,7 +7,7 @@ from sa.engine.cfg import call_name, handler_names
 from sa.engine.facts import Bad, F, atom
 from sa.engine.pattern import u, find_all
 from sa.engine.source import norm, own_walk, stmt_of, AnalysisError
-from .common import A, SYNC, lexically_inside, enclosing, dominates_all_exits, block_head
+from .common import A, SYNC, lexically_inside, enclosing, dominates_all_exits, block_head, validated_first
 
 EXPLANATION = ("Socket streams: the protocol appends received data at the tail of the read queue, receive() takes from the head, splits an "
                "oversized chunk with complementary slices at max_bytes and pushes the remainder back at the head; reading is resumed only "
@@ -79,9 +79,7 @@ def check(ctx):
 
     ctx.paths("R18-a", rc, [("pop", f"{ch} = {RQ}.popleft()"), ("split", f"{ch}, $L = ({ch}[:$N], {ch}[$M:])")], step_f, "", at_exit_f,
               instance="a chunk longer than max_bytes is never returned whole", native=True)
-    first = [s_ for s_ in fn.body if not (isinstance(s_, ast.Expr) and isinstance(s_.value, ast.Constant)) and not isinstance(s_, ast.Pass)]
-    okf = bool(first) and isinstance(first[0], ast.If) and atom(first[0].test) == (f"{mb} < 1", True) and any(isinstance(x, ast.Raise) for x in first[0].body)
-    ctx.ob("R18-a", rc, "max_bytes < 1 is rejected first (a split at 0 would return an empty chunk)", okf, detail="" if okf else "`if max_bytes < 1: raise ValueError` is not the first statement", by=(f"{mb} < 1",))
+    validated_first(ctx, "R18-a", rc, f"{mb} < 1", "max_bytes < 1 is rejected first (a split at 0 would return an empty chunk)")
     # UNIX stream
     ur = ctx.fn("UNIXSocketStream.receive", A)
     us = ctx.fn("UNIXSocketStream.send", A)
@@ -98,9 +96,7 @@ def check(ctx):
         eos = ctx.sites(ur, "raise EndOfStream")
         if ctx.need("R18-c", ur, "`raise EndOfStream` on an empty read", len(eos), 1):
             ctx.require_at("R18-c", ur, eos[0][0], [[f"not {d}"]], instance="EndOfStream exactly on an empty read")
-    uf = [s_ for s_ in ur.node.body if not (isinstance(s_, ast.Expr) and isinstance(s_.value, ast.Constant)) and not isinstance(s_, ast.Pass)]
-    okf = bool(uf) and isinstance(uf[0], ast.If) and atom(uf[0].test) == (f"{umb} < 1", True)
-    ctx.ob("R18-a", ur, "max_bytes < 1 is rejected first", okf, detail="" if okf else "no leading `if max_bytes < 1`", by=(f"{umb} < 1",))
+    validated_first(ctx, "R18-a", ur, f"{umb} < 1", "max_bytes < 1 is rejected first")
     item = us.node.args.args[1].arg
     vw = ctx.sites(us, f"$V = memoryview({item})")
     if ctx.need("R18-a", us, "`view = memoryview(item)`", len(vw), 1):
@@ -261,9 +257,16 @@ def check(ctx):
         if ctx.need("R18-c", sd, f"`{pat}` in send", len(ss), 1):
             ctx.require_at("R18-c", sd, ss[0][0], dnf, instance=f"{pat.split()[1]} in send exactly in that state", what=pat)
     ac = SS["aclose"]
-    firsta = [s_ for s_ in ac.node.body if not (isinstance(s_, ast.Expr) and isinstance(s_.value, ast.Constant)) and not isinstance(s_, ast.Pass)]
-    okc = bool(firsta) and ast.unparse(firsta[0]) == "self._closed = True"
-    ctx.ob("R18-c", ac, "aclose marks the stream closed before anything else", okc, detail="" if okc else "`self._closed = True` is not the first statement of aclose", by=("self._closed = True",))
+    def step_ac(st, e, c):
+        if e == "mark" and not c.is_exc:
+            return True
+        if e == "io" and not st:
+            return Bad("aclose touches the transport before marking the stream closed (a concurrent receive woken by the close would report EndOfStream/BrokenResourceError instead of ClosedResourceError)")
+        return st
+
+    ctx.paths("R18-c", ac, [("mark", "self._closed = True"), ("io", ["self._transport.$M($*A)", "await $X"])], step_ac, False,
+              lambda k, st, fa: "aclose returns without marking the stream closed" if k == "return" and not st else None,
+              instance="aclose marks the stream closed before anything else")
     s1 = ctx.sites(ac, "self._transport.write_eof()")
     s2 = ctx.sites(ac, "self._transport.close()")
     ctx.ob("R18-c", ac, "closing sends EOF and closes the transport (the peer reads the remaining bytes, then EndOfStream)", len(s1) == 1 and len(s2) == 1 and s1[0][0].lineno < s2[0][0].lineno,
